@@ -179,6 +179,25 @@ def lagrange (xs : List Rat) (rows : List (List Rat)) (dim w : Nat) (boundsError
     else if boundsError && maxL xnew > maxL sx then .error .above
     else .ok (xnew.map (fun x => lagrangeAt sx sy dim w (mean sx) s x))
 
+/-- `(f(x_new + dx) - f(x_new - dx)) / (2 * dx)`, componentwise -/
+def centralDiff (hi lo : List (List Rat)) (dx : Rat) : List (List Rat) :=
+  List.zipWith (fun a b => List.zipWith (fun u v => (u - v) / (2 * dx)) a b) hi lo
+
+/-- `interpolate_with_derivative(x, y, x_new, kind="lagrange", dx=dx, window=w, …)`: the interpolator is
+built once (argument checks, sort) and called for `x_new`, `x_new + dx`, `x_new - dx` in this order (each
+call checks its own bounds); the derivative is the central difference of the interpolant -/
+def lagrangeDeriv (xs : List Rat) (rows : List (List Rat)) (dim w : Nat) (boundsError assumeSorted : Bool)
+    (s : Rat) (xnew : List Rat) (dx : Rat) : Except Err (List (List Rat) × List (List Rat)) :=
+  match lagrange xs rows dim w boundsError assumeSorted s xnew with
+  | .error e => .error e
+  | .ok v =>
+    match lagrange xs rows dim w boundsError assumeSorted s (xnew.map (· + dx)) with
+    | .error e => .error e
+    | .ok hi =>
+      match lagrange xs rows dim w boundsError assumeSorted s (xnew.map (· - dx)) with
+      | .error e => .error e
+      | .ok lo => .ok (v, centralDiff hi lo dx)
+
 /-! ## Piecewise linear interpolation (`interpolation.linear` = SciPy `interp1d(kind="linear")`, modelled) -/
 
 /-- `np.searchsorted(x, v)` (side left): number of abscissae `< v` -/
